@@ -108,6 +108,55 @@ def _collect_lru():
 
 _collect_lru()
 
+# Import-time ("cold") contents of every module-level container and simple
+# global of the library, so that a world reset also covers memo tables or
+# scratch buffers that a changed tree may add (not only the ones known today).
+import collections as _collections  # noqa: E402
+import types as _types  # noqa: E402
+
+_PRISTINE = {}
+_SIMPLE = (int, float, str, bool, type(None), tuple, frozenset)
+
+
+def _snapshot_globals():
+    for mname, mod in sorted(sys.modules.items()):
+        if not (mname == "symmray" or mname.startswith("symmray.")):
+            continue
+        f = getattr(mod, "__file__", None) or ""
+        if not os.path.realpath(f).startswith(SYMMRAY_DIR):
+            continue
+        for k, v in list(vars(mod).items()):
+            if k.startswith("__"):
+                continue
+            if isinstance(v, (dict, list, set)) and not isinstance(v, _types.ModuleType):
+                _PRISTINE[(mname, k)] = ("container", v, type(v)(v) if not isinstance(
+                    v, _collections.defaultdict) else dict(v))
+            elif isinstance(v, _SIMPLE) and not k.isupper() or k in ("_DEFAULT_TENSORDOT_MODE",):
+                if isinstance(v, _SIMPLE):
+                    _PRISTINE[(mname, k)] = ("simple", None, v)
+
+
+_snapshot_globals()
+
+
+def restore_globals():
+    for (mname, k), (kind, obj, val) in _PRISTINE.items():
+        mod = sys.modules.get(mname)
+        if mod is None:
+            continue
+        if kind == "container":
+            cur = getattr(mod, k, None)
+            for o in ((obj,) if cur is obj else (obj, cur)):
+                if isinstance(o, (dict, set)):
+                    o.clear()
+                    o.update(val)
+                elif isinstance(o, list):
+                    o[:] = val
+        else:
+            if getattr(mod, k, None) != val:
+                setattr(mod, k, val)
+
+
 DEFAULT_MAXSIZE = 8192
 DEFAULT_MAXSECTORS = 512
 
@@ -129,6 +178,7 @@ def cache_counters():
 
 def world_reset(maxsize=DEFAULT_MAXSIZE, maxsectors=DEFAULT_MAXSECTORS):
     """Put every piece of process-wide library state into a known state."""
+    restore_globals()
     AC._fuseinfos.clear()
     clear_lru()
     AC._fi_hit = 0
